@@ -203,6 +203,38 @@ fn cmp_read(api: &'static str, case: &mut Case, slice: Result<usize, CErr>, read
     }
 }
 
+/// `read_limited` over a LimitedReader whose budget equals the data ~ from_slice: same header and consumed bytes;
+/// a slice length error shows as the limited reader's Len error (or EOF), content errors are equal
+fn cmp_limited(api: &'static str, case: &mut Case, slice: Result<usize, CErr>, read: Result<u64, RE>, equal: bool, multi: bool) {
+    case.eval();
+    case.eval();
+    match (slice, read) {
+        (Ok(n), Ok(pos)) => {
+            if !equal {
+                case.fail(format!("read-differs-from-slice:{}:value", api), format!("{}: limited reader and slice decoder return different headers", api));
+            }
+            if pos as usize != n {
+                case.fail(format!("read-differs-from-slice:{}:consumed", api), format!("{}: limited reader consumed {} bytes, the header has {}", api, pos, n));
+            }
+            case.reach("limited-ok");
+        }
+        (Err(CErr::Len { .. }), Err(RE::Err(CErr::Len { .. }))) | (Err(CErr::Len { .. }), Err(RE::Eof)) => case.reach("limited-len-err"),
+        (Err(e @ CErr::Content { .. }), Err(RE::Err(e2 @ CErr::Content { .. }))) => {
+            if e != e2 && !multi {
+                case.fail(format!("read-differs-from-slice:{}:content-error", api), format!("{}: slice {:?} vs limited reader {:?}", api, e, e2));
+            }
+        }
+        (Err(_), Err(_)) if multi => {}
+        (s, r) => case.fail(format!("read-differs-from-slice:{}:verdict", api), format!("{}: slice decoder {:?} vs limited reader {:?}", api, s.map_err(|e| e.class()), r)),
+    }
+}
+fn lim(e: &err::io::LimitedReadError) -> RE {
+    match e {
+        err::io::LimitedReadError::Io(i) => io(i),
+        err::io::LimitedReadError::Len(l) => RE::Err(conv::len_err(l)),
+    }
+}
+
 macro_rules! rd_pair {
     // plain io::Error readers
     ($case:expr, $api:literal, $b:expr, $ty:ty, $multi:expr) => {{
@@ -464,6 +496,23 @@ pub fn check_case(door: Door, b: &[u8], case: &mut Case) {
                 );
                 case.reach("pair:ip~ipv4");
                 rd_pair_c!(case, "Ipv4Header::read", b, Ipv4Header, err::ipv4::HeaderReadError, ms);
+                {
+                    // read_without_version(first byte given separately) ~ read
+                    case.at("Ipv4Header::read_without_version");
+                    let mut c1 = Cursor::new(b);
+                    let r1 = Ipv4Header::read(&mut c1);
+                    let mut c2 = Cursor::new(&b[1..]);
+                    let r2 = Ipv4Header::read_without_version(&mut c2, b[0]);
+                    case.eval();
+                    let same = match (&r1, &r2) {
+                        (Ok(a), Ok(c)) => a == c && c1.position() == c2.position() + 1,
+                        (Err(a), Err(c)) => format!("{:?}", a) == format!("{:?}", c),
+                        _ => false,
+                    };
+                    if !same {
+                        case.fail("read-differs:Ipv4Header::read~read_without_version", format!("read {:?} (pos {}) vs read_without_version {:?} (pos {})", r1, c1.position(), r2, c2.position()));
+                    }
+                }
             } else if v == 6 {
                 case.at("IpSlice::from_slice~Ipv6Slice::from_slice");
                 let a = IpSlice::from_slice(b).map(|i| (ipl(&i), None)).map_err(|e| e.cerr());
@@ -498,6 +547,22 @@ pub fn check_case(door: Door, b: &[u8], case: &mut Case) {
                 );
                 case.reach("pair:ip~ipv6");
                 rd_pair_c!(case, "Ipv6Header::read", b, Ipv6Header, err::ipv6::HeaderReadError, ms);
+                {
+                    case.at("Ipv6Header::read_without_version");
+                    let mut c1 = Cursor::new(b);
+                    let r1 = Ipv6Header::read(&mut c1);
+                    let mut c2 = Cursor::new(&b[1..]);
+                    let r2 = Ipv6Header::read_without_version(&mut c2, b[0] & 0xf);
+                    case.eval();
+                    let same = match (&r1, &r2) {
+                        (Ok(a), Ok(c)) => a == c && c1.position() == c2.position() + 1,
+                        (Err(_), Err(_)) => true,
+                        _ => false,
+                    };
+                    if !same {
+                        case.fail("read-differs:Ipv6Header::read~read_without_version", format!("read {:?} (pos {}) vs read_without_version {:?} (pos {})", r1, c1.position(), r2, c2.position()));
+                    }
+                }
             }
             // IpHeaders::read ~ IpHeaders::from_slice on slices that hold the announced packet
             let announced_ok = match v {
@@ -564,11 +629,70 @@ pub fn check_case(door: Door, b: &[u8], case: &mut Case) {
             );
         }
         Door::Ipv6Exts(n) => {
+            use etherparse::io::LimitedReader;
             match n {
-                0 | 43 | 60 => rd_pair!(case, "Ipv6RawExtHeader::read", b, Ipv6RawExtHeader, multi_s),
-                44 => rd_pair!(case, "Ipv6FragmentHeader::read", b, Ipv6FragmentHeader, multi_s),
-                51 => rd_pair_c!(case, "IpAuthHeader::read", b, IpAuthHeader, err::ip_auth::HeaderReadError, multi_s),
+                0 | 43 | 60 => {
+                    rd_pair!(case, "Ipv6RawExtHeader::read", b, Ipv6RawExtHeader, multi_s);
+                    case.at("Ipv6RawExtHeader::read_limited");
+                    let s = Ipv6RawExtHeader::from_slice(b);
+                    let mut lr = LimitedReader::new(Cursor::new(b), b.len(), LenSource::Slice, 0, Layer::Ipv6ExtHeader);
+                    let r = Ipv6RawExtHeader::read_limited(&mut lr);
+                    let pos = lr.take_reader().position();
+                    let eq = matches!((&s, &r), (Ok((h, _)), Ok(h2)) if h == h2);
+                    cmp_limited("Ipv6RawExtHeader::read_limited", case, s.as_ref().map(|(_, rest)| b.len() - rest.len()).map_err(|e| e.cerr()), r.as_ref().map(|_| pos).map_err(lim), eq, true);
+                }
+                44 => {
+                    rd_pair!(case, "Ipv6FragmentHeader::read", b, Ipv6FragmentHeader, multi_s);
+                    case.at("Ipv6FragmentHeader::read_limited");
+                    let s = Ipv6FragmentHeader::from_slice(b);
+                    let mut lr = LimitedReader::new(Cursor::new(b), b.len(), LenSource::Slice, 0, Layer::Ipv6FragHeader);
+                    let r = Ipv6FragmentHeader::read_limited(&mut lr);
+                    let pos = lr.take_reader().position();
+                    let eq = matches!((&s, &r), (Ok((h, _)), Ok(h2)) if h == h2);
+                    cmp_limited("Ipv6FragmentHeader::read_limited", case, s.as_ref().map(|(_, rest)| b.len() - rest.len()).map_err(|e| e.cerr()), r.as_ref().map(|_| pos).map_err(lim), eq, true);
+                }
+                51 => {
+                    rd_pair_c!(case, "IpAuthHeader::read", b, IpAuthHeader, err::ip_auth::HeaderReadError, multi_s);
+                    case.at("IpAuthHeader::read_limited");
+                    let s = IpAuthHeader::from_slice(b);
+                    let mut lr = LimitedReader::new(Cursor::new(b), b.len(), LenSource::Slice, 0, Layer::IpAuthHeader);
+                    let r = IpAuthHeader::read_limited(&mut lr);
+                    let pos = lr.take_reader().position();
+                    let eq = matches!((&s, &r), (Ok((h, _)), Ok(h2)) if h == h2);
+                    cmp_limited(
+                        "IpAuthHeader::read_limited",
+                        case,
+                        s.as_ref().map(|(_, rest)| b.len() - rest.len()).map_err(|e| e.cerr()),
+                        r.as_ref().map(|_| pos).map_err(|e| match e {
+                            err::ip_auth::HeaderLimitedReadError::Io(i) => io(i),
+                            err::ip_auth::HeaderLimitedReadError::Len(l) => RE::Err(conv::len_err(l)),
+                            err::ip_auth::HeaderLimitedReadError::Content(c) => RE::Err(c.cerr()),
+                        }),
+                        eq,
+                        true,
+                    );
+                }
                 _ => {}
+            }
+            {
+                case.at("Ipv6Extensions::read_limited");
+                let s = Ipv6Extensions::from_slice(IpNumber(n), b);
+                let mut lr = LimitedReader::new(Cursor::new(b), b.len(), LenSource::Slice, 0, Layer::Ipv6Header);
+                let r = Ipv6Extensions::read_limited(&mut lr, IpNumber(n));
+                let pos = lr.take_reader().position();
+                let eq = matches!((&s, &r), (Ok((h, n1, _)), Ok((h2, n2))) if h == h2 && n1 == n2);
+                cmp_limited(
+                    "Ipv6Extensions::read_limited",
+                    case,
+                    s.as_ref().map(|(_, _, rest)| b.len() - rest.len()).map_err(|e| e.cerr()),
+                    r.as_ref().map(|_| pos).map_err(|e| match e {
+                        err::ipv6_exts::HeaderLimitedReadError::Io(i) => io(i),
+                        err::ipv6_exts::HeaderLimitedReadError::Len(l) => RE::Err(conv::len_err(l)),
+                        err::ipv6_exts::HeaderLimitedReadError::Content(c) => RE::Err(c.cerr()),
+                    }),
+                    eq,
+                    true,
+                );
             }
             case.at("Ipv6Extensions::read");
             let s = Ipv6Extensions::from_slice(IpNumber(n), b);
@@ -668,7 +792,7 @@ impl Check for C06 {
     }
     fn rule(&self, tier: Tier) -> String {
         format!(
-            "alphabet/bound: {}. Each case = (door, byte string) is decoded through every pair of equivalent entry points of its door: the 12 IP boundary implementations in 4 pair groups (by version nibble), from_ethernet ~ from_ether_type(type, bytes[14..]) and from_linux_sll ~ from_ether_type(protocol, bytes[16..]) for all 4 whole-packet families (error offsets shifted), from_ether_type(0x0800|0x86DD) ~ from_ip, and read(Cursor) ~ from_slice for the 17 header types with a reader (Ethernet2, SLL, VLAN, MACsec, ARP, IPv4, IPv6, AH, raw ext, fragment, UDP, TCP, ICMPv4, ICMPv6, IpHeaders, Ipv4Extensions, Ipv6Extensions). \
+            "alphabet/bound: {}. Each case = (door, byte string) is decoded through every pair of equivalent entry points of its door: the 12 IP boundary implementations in 4 pair groups (by version nibble), from_ethernet ~ from_ether_type(type, bytes[14..]) and from_linux_sll ~ from_ether_type(protocol, bytes[16..]) for all 4 whole-packet families (error offsets shifted), from_ether_type(0x0800|0x86DD) ~ from_ip, and read(Cursor) ~ from_slice for the 17 header types with a reader (plus the 4 read_limited and 2 read_without_version variants) (Ethernet2, SLL, VLAN, MACsec, ARP, IPv4, IPv6, AH, raw ext, fragment, UDP, TCP, ICMPv4, ICMPv6, IpHeaders, Ipv4Extensions, Ipv6Extensions). \
              oracle (differential): equal layers/ranges/fields resp. equal header structs and payload ranges, equal errors after mapping to a common normal form, cursor position == header length, slice length error <=> reader UnexpectedEof, equal content errors; when one header carries two faults the siblings may name either. \
              distinct = distinct (door, bytes); non-trivial = at least 8 bytes.",
             sweep::describe_bounds(tier)
@@ -691,7 +815,7 @@ impl Check for C06 {
         }
     }
     fn expect_reach(&self, _tier: Tier) -> Vec<String> {
-        ["pair:ethernet~ether_type", "pair:sll~ether_type", "pair:ether_type~ip", "pair:ip~ipv4", "pair:ip~ipv6", "read-ok", "read-eof", "read-content-err", "read-len-err"].iter().map(|s| s.to_string()).collect()
+        ["pair:ethernet~ether_type", "pair:sll~ether_type", "pair:ether_type~ip", "pair:ip~ipv4", "pair:ip~ipv6", "read-ok", "read-eof", "read-content-err", "read-len-err", "limited-ok", "limited-len-err"].iter().map(|s| s.to_string()).collect()
     }
     fn run_unit(&self, tier: Tier, u: u64, ctx: &mut Ctx) {
         sweep::run_unit(tier, u, ctx, &|door, bytes, _shape, case| check_case(door, bytes, case));
